@@ -78,6 +78,9 @@ func (bc *BaseContract) TxLockTokenBalance(
 	if !ok {
 		return ErrBigIntFromString
 	}
+	if amount.Sign() <= 0 {
+		return ErrAmountRequired
+	}
 
 	if err = bc.TokenBalanceLock(address, amount); err != nil {
 		return err
@@ -248,6 +251,9 @@ func (bc *BaseContract) TxLockAllowedBalance(
 	amount, ok := new(big.Int).SetString(req.GetAmount(), 10) //nolint:gomnd
 	if !ok {
 		return ErrBigIntFromString
+	}
+	if amount.Sign() <= 0 {
+		return ErrAmountRequired
 	}
 
 	if err = bc.AllowedBalanceLock(req.GetToken(), address, amount); err != nil {
